@@ -3082,12 +3082,9 @@ func (dsc *dataStoreCommand) sort(sourceKeyName, byPattern, destKeyName string, 
 	} else {
 		sk, objExists := dsc.getKeyObjectUnlocked(sourceKeyName)
 		if !objExists {
-			output = nativeValueToResp([]any{})
-			return
-		}
-
-		ss := sk.getSet()
-		if ss != nil {
+			// a missing source sorts as an empty list (with STORE: the destination goes away)
+			vals = []sortVal{}
+		} else if ss := sk.getSet(); ss != nil {
 			// convert set (a hash table) into a value array
 			vals = make([]sortVal, 0, ss.count)
 			for i := ss.createIterator(); i.next(); {
@@ -3213,14 +3210,21 @@ func (dsc *dataStoreCommand) sort(sourceKeyName, byPattern, destKeyName string, 
 	}
 
 	if destKeyName != "" {
-		list := dsc.newListUnlocked(destKeyName)
+		// the result replaces whatever the destination held (value and expiry);
+		// an empty result leaves no key instead of an empty list
+		if dsc.ds.data.remove(destKeyName) {
+			dsc.setDirty()
+		}
+		if len(a) > 0 {
+			list := dsc.newListUnlocked(destKeyName)
 
-		for _, element := range a {
-			str, _ := element.toString()
-			dsc.rpushUnlocked(destKeyName, list, []byte(str))
+			for _, element := range a {
+				str, _ := element.toString()
+				dsc.rpushUnlocked(destKeyName, list, []byte(str))
+			}
 		}
 
-		output.data = respInt(list.count)
+		output.data = respInt(len(a))
 	} else {
 		output = nativeValueToResp(a)
 	}
